@@ -1,13 +1,11 @@
 SPECIFICATION Spec
-CONSTANTS MaxLen = 5 Wide = TRUE
-  Kinds <- ThoroughKinds
+CONSTANTS MaxLen = 4 Wide = FALSE
+  Kinds <- NumKinds
 INVARIANT Aggregate
 INVARIANT Yielded
 INVARIANT FreshEquiv
 INVARIANT ContextOfLast
 INVARIANT NoMemory
-INVARIANT VarianceIdentity
-INVARIANT DSumOrderFree
 INVARIANT NumericKinds
 PROPERTY ResetIsFresh
 PROPERTY ComputeIdempotent
